@@ -75,6 +75,12 @@ CLAIMED = {
             'templates, pooled covariance, pseudo-inverse and static / DPA scores of the real attacks (several batch sizes, both precisions, class lists with gaps) equal the exact rationals; '
             'run before build refused.',
             'Trace length <= 2 (exact pseudo-inverse); covariance/scores claimed when every declared class has >= 2 building traces; building sets are sampled, not enumerated.', '6/C14'),
+    'C19': ('TLA+ declarative post-condition ValidPeaks and code-shaped elimination scans (Signal.tla, SigPeaks.tla: repaired scan verified on every signal of the bound, pinned scan refuted); outputs of the real '
+            'find_peaks judged by TLC (SigPeaksV.tla); windowed moments, pattern scores and width runs enumerated by TLC (SigEnum.tla) and compared with the real helpers',
+            'TLC checks the repaired scan against ValidPeaks and isolated-maximum retention on every signal of length <= 7 over 3 values and <= 9 over 2 values x distances x heights; every output of the real find_peaks on '
+            'those signals and on random longer ones is accepted or rejected by TLC itself; moving sum/mean/var/std/skew/kurtosis on every window of every small signal (1-D and along every axis of 3-D arrays), '
+            'per-window Pearson / distance / BCDC for every pattern, find_width for all directions/thresholds/bounds, pad and extract index maps.',
+            'sqrt and powers evaluated in Python on exact rationals; zero-variance windows not compared; Butterworth and fft outside the property.', '6/C19'),
     'C20': ('TLA+ model of the Synchronizer.run loop with a nondeterministic accept/raise/None user function (Synchronizer.tla) model-checked by TLC over every script in the bound; every script executed on a real Synchronizer',
             'TLC checks for every script of length <= 8(9) that the output is the accepted subsequence in input order, counters match (incl. all rejected), a second run changes nothing; a wrong write index is refuted. '
             'Every script <= 6(8) and long scripts with failure runs around the 8/16/32 warning limits are executed with ETS output (str / Path), equal or different returned lengths: output rows, all metadata, counters, single-use guard.',
